@@ -101,8 +101,13 @@ impl From<Evaluated<'_>> for Value {
 }
 
 pub fn to_number_value(number: f64) -> Result<Value, Error> {
-    if number.fract() == 0.0 {
+    // An integral result is spelled as a JSON integer when it fits 64 bits.
+    // (The casts saturate, so they may only be used inside these ranges.)
+    if number.fract() == 0.0 && number >= -9223372036854775808.0 && number < 9223372036854775808.0
+    {
         Ok(Value::Number(Number::from(number as i64)))
+    } else if number.fract() == 0.0 && number >= 0.0 && number < 18446744073709551616.0 {
+        Ok(Value::Number(Number::from(number as u64)))
     } else {
         Number::from_f64(number)
             .ok_or_else(|| {
